@@ -74,7 +74,16 @@ func (ex *Exec) declareSpecFuncs() error {
 		if t == nil {
 			return fmt.Errorf("axiom %s could not be evaluated", ax.Name)
 		}
+		if len(ax.When) > 0 && t.Op == "forall" && len(t.Pats) == 0 {
+			// trigger: an application of the first `when` symbol that mentions every bound variable
+			if p := findAppPattern(t.Args[0], ax.When[0], t.Bound); p != nil {
+				t = &Term{Op: "forall", Sort: SBool, Bound: t.Bound, Args: t.Args, Pats: []*Term{p}}
+			}
+		}
 		ex.AxiomTs = append(ex.AxiomTs, t)
+		if len(ax.When) > 0 {
+			AxiomWhen[t] = ax.When
+		}
 	}
 	return nil
 }
@@ -693,4 +702,45 @@ func typeKeyStar(t types.Type) string {
 		return "*" + k
 	}
 	return TypeKey(t)
+}
+
+func findAppPattern(body *Term, name string, bound []*Term) *Term {
+	var found *Term
+	var walk func(t *Term)
+	walk = func(t *Term) {
+		if found != nil {
+			return
+		}
+		if t.Op == "app" && t.Name == name {
+			seen := map[string]bool{}
+			var vars func(x *Term)
+			vars = func(x *Term) {
+				if x.Op == "var" {
+					seen[x.Name] = true
+				}
+				for _, a := range x.Args {
+					vars(a)
+				}
+			}
+			vars(t)
+			all := true
+			for _, b := range bound {
+				if !seen[b.Name] {
+					all = false
+				}
+			}
+			if all {
+				found = t
+				return
+			}
+		}
+		if t.Op == "forall" || t.Op == "exists" {
+			return
+		}
+		for _, a := range t.Args {
+			walk(a)
+		}
+	}
+	walk(body)
+	return found
 }
